@@ -127,7 +127,7 @@ impl ProgressBar {
 
     /// A convenience builder-like function for a progress bar with a given position
     pub fn with_position(self, pos: u64) -> Self {
-        self.state().set_initial_position(pos);
+        self.state().set_initial_position(Instant::now(), pos);
         self
     }
 
